@@ -116,3 +116,101 @@ pub fn k_unpack(a: &[u64]) -> Vec<u64> {
     let bits = vh::BinaryOctetVec::new(a[2..2 + a[1] as usize].to_vec(), a[0] as usize);
     vh::kernels::to_octet_vec(&bits).iter().map(|&x| x as u64).collect()
 }
+
+// ---------------------------------------------------------------------------------------------
+// Guard-page variants (C12 validation): every operand lives in its own mapping, flush against an
+// inaccessible page either at its end (place = 0: overruns fault) or at its start (place = 1:
+// underruns fault).  An access outside the operand kills the process with SIGSEGV; the driver
+// detects the crash and bisects to the case.  Stray accesses that rewrite identical bytes are
+// invisible to canaries but not to this.
+unsafe extern "C" {
+    fn mmap(addr: *mut u8, len: usize, prot: i32, flags: i32, fd: i32, off: i64) -> *mut u8;
+    fn mprotect(addr: *mut u8, len: usize, prot: i32) -> i32;
+    fn munmap(addr: *mut u8, len: usize) -> i32;
+}
+const PAGE: usize = 4096;
+
+struct Paged {
+    base: *mut u8,
+    total: usize,
+    start: usize,
+    len: usize,
+}
+
+impl Paged {
+    fn new(data: &[u8], place: u64) -> Paged {
+        let body = data.len().div_ceil(PAGE).max(1) * PAGE;
+        let total = body + 2 * PAGE;
+        unsafe {
+            let base = mmap(std::ptr::null_mut(), total, 3, 0x22, -1, 0);
+            assert!(!base.is_null() && base as isize != -1, "mmap failed");
+            assert_eq!(mprotect(base, PAGE, 0), 0);
+            assert_eq!(mprotect(base.add(PAGE + body), PAGE, 0), 0);
+            let start = if place == 0 { PAGE + body - data.len() } else { PAGE };
+            std::ptr::copy_nonoverlapping(data.as_ptr(), base.add(start), data.len());
+            Paged { base, total, start, len: data.len() }
+        }
+    }
+    fn slice(&mut self) -> &mut [u8] {
+        unsafe { std::slice::from_raw_parts_mut(self.base.add(self.start), self.len) }
+    }
+}
+
+impl Drop for Paged {
+    fn drop(&mut self) {
+        unsafe {
+            munmap(self.base, self.total);
+        }
+    }
+}
+
+/// [op, isa, place, c, len, (nwords, words...) if op = 3, dest(len), src(len) if op in {0, 2}]
+/// op 0 add, 1 mul, 2 fma, 3 fma_binary; output: dest after
+pub fn kg(a: &[u64]) -> Vec<u64> {
+    let (op, isa, place, c, len) = (a[0], a[1], a[2], a[3], a[4] as usize);
+    let sc = Octet::new(c as u8);
+    let mut rest = &a[5..];
+    let words: Vec<u64> = if op == 3 {
+        let nw = rest[0] as usize;
+        let w = rest[1..1 + nw].to_vec();
+        rest = &rest[1 + nw..];
+        w
+    } else {
+        vec![]
+    };
+    let mut d = Paged::new(&b(&rest[..len]), place);
+    match op {
+        0 | 2 => {
+            let mut s = Paged::new(&b(&rest[len..2 * len]), place);
+            if op == 0 {
+                if isa == 4 {
+                    let sv = s.slice().to_vec();
+                    vh::add_assign(d.slice(), &sv);
+                } else {
+                    vh::kernels::add_assign_with(isa_name(isa), d.slice(), s.slice());
+                }
+            } else if isa == 4 {
+                let sv = s.slice().to_vec();
+                vh::fused_addassign_mul_scalar(d.slice(), &sv, &sc);
+            } else {
+                vh::kernels::fma_with(isa_name(isa), d.slice(), s.slice(), &sc);
+            }
+        }
+        1 => {
+            if isa == 4 {
+                vh::mulassign_scalar(d.slice(), &sc);
+            } else {
+                vh::kernels::mulassign_scalar_with(isa_name(isa), d.slice(), &sc);
+            }
+        }
+        _ => {
+            let bits = vh::BinaryOctetVec::new(words, len);
+            if isa == 4 {
+                vh::fused_addassign_mul_scalar_binary(d.slice(), &bits, &sc);
+            } else {
+                vh::kernels::fma_binary_with(isa_name(isa), d.slice(), &bits, &sc);
+            }
+        }
+    }
+    d.slice().iter().map(|&x| x as u64).collect()
+}
